@@ -31,6 +31,7 @@ import (
 )
 
 type impWant struct {
+	floatAs  string // Gallina type standing for float64 in this package ("" = Z, integer-valued scores)
 	join     bool // translate `if` by joining the assigned variables instead of duplicating what follows
 	dir, pkg string
 	funcs    []string          // "Name" or "Recv.Name", in dependency order
@@ -51,7 +52,7 @@ var impWants = []impWant{
 	{dir: "formats/fasta", pkg: "fasta", funcs: []string{"Fasta.Write"}, join: true},
 	{dir: "formats/fastq", pkg: "fastq", funcs: []string{"Fastq.Write"}, join: true},
 	{dir: "formats/bed", pkg: "bed", funcs: []string{"BED.Write", "parseLine"}, join: true},
-	{dir: "formats/newick", pkg: "newick", funcs: []string{"quoted", "nameFromText", "nameToText"}},
+	{dir: "formats/newick", pkg: "newick", funcs: []string{"quoted", "nameFromText", "nameToText", "Node.traverse"}, floatAs: "F"},
 }
 
 type impFn struct {
@@ -86,6 +87,7 @@ type impTr struct {
 	retWrap  func(string) string
 	fnName   string
 	join     bool
+	floatAs  string
 	results  *types.Tuple
 	loopVars []map[types.Object]bool
 }
@@ -159,6 +161,8 @@ func (t *impTr) ty(ty types.Type) string {
 		switch {
 		case u.Kind() == types.Uint8:
 			return "N"
+		case u.Info()&types.IsFloat != 0 && t.floatAs != "":
+			return t.floatAs
 		case u.Info()&types.IsInteger != 0, u.Info()&types.IsFloat != 0:
 			return "Z"
 		case u.Info()&types.IsBoolean != 0:
@@ -216,6 +220,8 @@ func (t *impTr) zero(ty types.Type) string {
 		switch {
 		case u.Kind() == types.Uint8:
 			return "0%N"
+		case u.Info()&types.IsFloat != 0 && t.floatAs != "":
+			return "[48%N]" // the float64 zero value in its canonical text, as in Model/Newick.v
 		case u.Info()&types.IsInteger != 0, u.Info()&types.IsFloat != 0:
 			return "0%Z"
 		case u.Info()&types.IsBoolean != 0:
@@ -240,7 +246,8 @@ func (t *impTr) zero(ty types.Type) string {
 	panic(t.fnName + ": no zero value for " + ty.String())
 }
 
-// record emits the Record of a named struct type (once), with one setter per field.
+// record emits the Record of a named struct type (once), with one setter per field. A type
+// that refers to itself (newick.Node) becomes an Inductive with projections by match.
 func (t *impTr) record(n *types.Named) {
 	name := n.Obj().Name()
 	if t.records[name] {
@@ -249,11 +256,31 @@ func (t *impTr) record(n *types.Named) {
 	t.records[name] = true
 	s := n.Underlying().(*types.Struct)
 	rn := "imp_" + t.pkg + "_" + name
-	var fields []string
+	var fields, ftys []string
+	recursive := false
 	for i := 0; i < s.NumFields(); i++ {
-		fields = append(fields, fmt.Sprintf("%s_%s : %s", rn, s.Field(i).Name(), t.ty(s.Field(i).Type())))
+		fty := t.ty(s.Field(i).Type())
+		if strings.Contains(fty, rn) {
+			recursive = true
+		}
+		ftys = append(ftys, fty)
+		fields = append(fields, fmt.Sprintf("%s_%s : %s", rn, s.Field(i).Name(), fty))
 	}
-	fmt.Fprintf(t.out, "Record %s : Type := I%s { %s }.\n", rn, rn[1:], strings.Join(fields, "; "))
+	if recursive {
+		var args, wild []string
+		for i := 0; i < s.NumFields(); i++ {
+			args = append(args, fmt.Sprintf("(_ : %s)", ftys[i]))
+			wild = append(wild, "_")
+		}
+		fmt.Fprintf(t.out, "Inductive %s : Type := I%s %s.\n", rn, rn[1:], strings.Join(args, " "))
+		for i := 0; i < s.NumFields(); i++ {
+			pat := append([]string{}, wild...)
+			pat[i] = "x"
+			fmt.Fprintf(t.out, "Definition %s_%s (r : %s) : %s := match r with I%s %s => x end.\n", rn, s.Field(i).Name(), rn, ftys[i], rn[1:], strings.Join(pat, " "))
+		}
+	} else {
+		fmt.Fprintf(t.out, "Record %s : Type := I%s { %s }.\n", rn, rn[1:], strings.Join(fields, "; "))
+	}
 	for i := 0; i < s.NumFields(); i++ {
 		parts := []string{"I" + rn[1:]}
 		for j := 0; j < s.NumFields(); j++ {
@@ -263,7 +290,7 @@ func (t *impTr) record(n *types.Named) {
 				parts = append(parts, fmt.Sprintf("(%s_%s r)", rn, s.Field(j).Name()))
 			}
 		}
-		fmt.Fprintf(t.out, "Definition %s_with_%s (r : %s) (v : %s) : %s := %s.\n", rn, s.Field(i).Name(), rn, t.ty(s.Field(i).Type()), rn, strings.Join(parts, " "))
+		fmt.Fprintf(t.out, "Definition %s_with_%s (r : %s) (v : %s) : %s := %s.\n", rn, s.Field(i).Name(), rn, ftys[i], rn, strings.Join(parts, " "))
 	}
 }
 
@@ -1668,7 +1695,7 @@ func genImp(repo, out string) {
 			panic(fmt.Sprintf("type-checking %s: %v", want.dir, err))
 		}
 		t := &impTr{pkg: want.pkg, info: info, fset: fset, fns: map[types.Object]*impFn{}, globals: want.globals,
-			records: map[string]bool{}, join: want.join}
+			records: map[string]bool{}, join: want.join, floatAs: want.floatAs}
 		fmt.Fprintf(sb, "(* ---- package %s ---- *)\n", want.dir)
 		for _, fname := range want.funcs {
 			recv, name := "", fname
